@@ -297,3 +297,143 @@ func Dominates(a, b ssa.Instruction) bool {
 	}
 	return ba.Dominates(bb)
 }
+
+// MustFollow checks the "if" direction of a pairing rule: there is no path from the
+// function entry to a normal return that (a) passes a licensing edge of every predicate
+// in preds (and does not afterwards take the opposite edge of the same test) and
+// (b) does not execute an instruction matching effect. It returns ok and a witness.
+func MustFollow(fn *ssa.Function, preds []Pred, effect func(ssa.Instruction) bool) (bool, []string) {
+	type state struct {
+		b     *ssa.BasicBlock
+		flags uint32
+	}
+	full := uint32(1)<<uint(len(preds)) - 1
+	start := state{fn.Blocks[0], 0}
+	seen := map[state]bool{start: true}
+	prev := map[state]state{}
+	queue := []state{start}
+	for len(queue) > 0 {
+		s := queue[0]
+		queue = queue[1:]
+		hit := false
+		for _, in := range s.b.Instrs {
+			if effect(in) {
+				hit = true
+				break
+			}
+			if IsReturn(in) && s.flags == full {
+				var path []string
+				for x := s; ; {
+					path = append([]string{fmt.Sprintf("block %d (%s) flags=%b", x.b.Index, x.b.Comment, x.flags)}, path...)
+					p, ok := prev[x]
+					if !ok {
+						break
+					}
+					x = p
+				}
+				return false, path
+			}
+		}
+		if hit {
+			continue
+		}
+		for i, nx := range s.b.Succs {
+			fl := s.flags
+			for pi, p := range preds {
+				lic := licensedSucc(s.b, p)
+				if len(lic) == 0 {
+					continue
+				}
+				isLic := false
+				for _, l := range lic {
+					if l == i {
+						isLic = true
+					}
+				}
+				if isLic {
+					fl |= 1 << uint(pi)
+				} else {
+					fl &^= 1 << uint(pi)
+				}
+			}
+			ns := state{nx, fl}
+			if !seen[ns] {
+				seen[ns] = true
+				prev[ns] = s
+				queue = append(queue, ns)
+			}
+		}
+	}
+	return true, nil
+}
+
+// HasLicensingEdge reports whether fn contains at least one edge establishing pred.
+func HasLicensingEdge(fn *ssa.Function, pred Pred) bool {
+	for _, b := range fn.Blocks {
+		if len(licensedSucc(b, pred)) > 0 {
+			return true
+		}
+	}
+	return false
+}
+
+// IsBuiltinCall reports whether in is a call of the named builtin; returns its args.
+func IsBuiltinCall(in ssa.Instruction, name string) ([]ssa.Value, bool) {
+	c, ok := in.(*ssa.Call)
+	if !ok {
+		return nil, false
+	}
+	b, ok := c.Call.Value.(*ssa.Builtin)
+	if !ok || b.Name() != name {
+		return nil, false
+	}
+	return c.Call.Args, true
+}
+
+// LenOf reports whether v is len(x) and returns x.
+func LenOf(v ssa.Value) (ssa.Value, bool) {
+	v = StripConv(v)
+	c, ok := v.(*ssa.Call)
+	if !ok {
+		return nil, false
+	}
+	b, ok := c.Call.Value.(*ssa.Builtin)
+	if !ok || b.Name() != "len" || len(c.Call.Args) != 1 {
+		return nil, false
+	}
+	return c.Call.Args[0], true
+}
+
+// LoadOfField reports whether v is a load of field `field` and returns the base object.
+func LoadOfField(v ssa.Value, field string) (ssa.Value, bool) {
+	v = StripConv(v)
+	switch x := v.(type) {
+	case *ssa.UnOp:
+		if x.Op != token.MUL {
+			return nil, false
+		}
+		_, f, base, ok := FieldOf(x.X)
+		if ok && f == field {
+			return base, true
+		}
+	case *ssa.Field:
+		_, f, base, ok := FieldOf(x)
+		if ok && f == field {
+			return base, true
+		}
+	}
+	return nil, false
+}
+
+// AddrOfField reports whether v is &base.field.
+func AddrOfField(v ssa.Value, field string) (ssa.Value, bool) {
+	fa, ok := v.(*ssa.FieldAddr)
+	if !ok {
+		return nil, false
+	}
+	_, f, base, ok2 := FieldOf(fa)
+	if ok2 && f == field {
+		return base, true
+	}
+	return nil, false
+}
